@@ -20,10 +20,11 @@ VARIABLES l, bad, stats,
           cw,      \* direction -> [conn, rem]: message being written under the lock
           trunk,   \* direction -> frames in flight
           sent, q, rcvd,   \* <<direction, conn>> -> sequence of frames
+          wasfull, \* direction -> the queue was full when the reader's latest frame arrived
           cfg,     \* [qlen, fault]
           phase    \* "run" | "post"
 
-tvars == <<l, bad, stats, wl, cw, trunk, sent, q, rcvd, cfg, phase>>
+tvars == <<l, bad, stats, wl, cw, trunk, sent, q, rcvd, wasfull, cfg, phase>>
 E == Tr[l]
 Dirs == {"AB", "BA"}
 ReadDir(end) == IF end = "B" THEN "AB" ELSE "BA"
@@ -38,14 +39,14 @@ TraceInit ==
   /\ stats = [scenarios |-> 0, frames |-> 0, reads |-> 0, faults |-> 0, overflows |-> 0, rejected |-> 0]
   /\ wl = [d \in Dirs |-> FALSE] /\ cw = [d \in Dirs |-> [conn |-> 0, rem |-> 0]]
   /\ trunk = [d \in Dirs |-> <<>>] /\ sent = Empty /\ q = Empty /\ rcvd = Empty
-  /\ cfg = [qlen |-> 0, fault |-> "none"] /\ phase = "run"
+  /\ cfg = [qlen |-> 0, fault |-> "none"] /\ phase = "run" /\ wasfull = [d \in Dirs |-> FALSE]
 
 Bump(c) == [stats EXCEPT ![c] = @ + 1]
 Reject(label, detail) ==
   /\ bad' = Append(bad, [scn |-> E.scn, line |-> l, labels |-> {label}, detail |-> detail])
   /\ l' = E.nb /\ stats' = Bump("rejected")
-  /\ UNCHANGED <<wl, cw, trunk, sent, q, rcvd, cfg, phase>>
-Skip == l' = l + 1 /\ UNCHANGED <<bad, stats, wl, cw, trunk, sent, q, rcvd, cfg, phase>>
+  /\ UNCHANGED <<wl, cw, trunk, sent, q, rcvd, wasfull, cfg, phase>>
+Skip == l' = l + 1 /\ UNCHANGED <<bad, stats, wl, cw, trunk, sent, q, rcvd, wasfull, cfg, phase>>
 Next1(c) == l' = l + 1 /\ stats' = Bump(c) /\ UNCHANGED bad
 
 Faulty == cfg.fault # "none"
@@ -54,22 +55,38 @@ TBegin ==
   /\ Next1("scenarios")
   /\ wl' = [d \in Dirs |-> FALSE] /\ cw' = [d \in Dirs |-> [conn |-> 0, rem |-> 0]]
   /\ trunk' = [d \in Dirs |-> <<>>] /\ sent' = Empty /\ q' = Empty /\ rcvd' = Empty
-  /\ cfg' = [qlen |-> E.qlen, fault |-> E.fault] /\ phase' = "run"
+  /\ cfg' = [qlen |-> E.qlen, fault |-> E.fault] /\ phase' = "run" /\ wasfull' = [d \in Dirs |-> FALSE]
 
 \* ------------------------------------------------------------ writer side --
 TWLocked ==
   IF wl[E.dir] THEN Reject("C10-write-lock", <<E.dir, E.conn>>)     \* two writers inside the framing section
   ELSE /\ wl' = [wl EXCEPT ![E.dir] = TRUE] /\ cw' = [cw EXCEPT ![E.dir] = [conn |-> E.conn, rem |-> E.total]]
-       /\ Next1("frames") /\ UNCHANGED <<trunk, sent, q, rcvd, cfg, phase>>
+       /\ Next1("frames") /\ UNCHANGED <<trunk, sent, q, rcvd, wasfull, cfg, phase>>
+
+\* the frames of one message are contiguous on their connection (no other writer's frame in between)
+\* (a last chunk shorter than the frame descriptor carries no identity: it can only be the final chunk)
+Contiguous(prev, e) ==
+  IF prev.fn > 0 /\ prev.fc < prev.fn
+  THEN IF e.fn = 0 THEN prev.fc + 1 = prev.fn
+       ELSE e.fw = prev.fw /\ e.fm = prev.fm /\ e.fc = prev.fc + 1
+  ELSE e.fc <= 1
+NoFrame == [fw |-> 0, fm |-> 0, fc |-> 0, fn |-> 0]
 
 TWHdr ==
-  LET d == E.dir  k == <<E.dir, E.conn>>  f == [conn |-> E.conn, f |-> E.f, size |-> E.size] IN
+  LET d == E.dir  k == <<E.dir, E.conn>>
+      prev0 == IF Len(Get(sent, <<E.dir, E.conn>>)) = 0 THEN NoFrame ELSE sent[<<E.dir, E.conn>>][Len(sent[<<E.dir, E.conn>>])]
+      tail == E.fn = 0 /\ prev0.fn > 0 /\ prev0.fc < prev0.fn      \* an anonymous final chunk inherits its message
+      f == [conn |-> E.conn, f |-> E.f, size |-> E.size,
+            fw |-> IF tail THEN prev0.fw ELSE E.fw, fm |-> IF tail THEN prev0.fm ELSE E.fm,
+            fc |-> IF tail THEN prev0.fc + 1 ELSE E.fc, fn |-> IF tail THEN prev0.fn ELSE E.fn]
+      prev == IF Len(Get(sent, k)) = 0 THEN NoFrame ELSE sent[k][Len(sent[k])] IN
   IF ~wl[d] \/ cw[d].conn # E.conn THEN Reject("C10-frame-outside-lock", <<d, E.conn, E.f>>)
   ELSE IF E.size > cw[d].rem THEN Reject("C10-frame-size", <<E.size, cw[d].rem>>)
+  ELSE IF ~Contiguous(prev, E) THEN Reject("C10-message-interleaved", <<k, prev.fw, prev.fm, prev.fc, E.f>>)
   ELSE /\ trunk' = [trunk EXCEPT ![d] = Append(@, f)]
        /\ sent' = Put(sent, k, Append(Get(sent, k), f))
        /\ cw' = [cw EXCEPT ![d].rem = @ - E.size]
-       /\ Next1("frames") /\ UNCHANGED <<wl, q, rcvd, cfg, phase>>
+       /\ Next1("frames") /\ UNCHANGED <<wl, q, rcvd, wasfull, cfg, phase>>
 
 \* a payload write that failed: that frame (the last of the trunk) may never be parsable
 TWPay ==
@@ -77,9 +94,14 @@ TWPay ==
   ELSE IF ~Faulty /\ phase = "run" THEN Reject("C11-spurious-error", <<"payload write", E.dir>>)
   ELSE Skip
 
+\* a write that gave up (trunk failure) leaves its message unfinished: what follows is a new message
 TWUnlocking ==
-  /\ wl' = [wl EXCEPT ![E.dir] = FALSE]
-  /\ l' = l + 1 /\ UNCHANGED <<bad, stats, cw, trunk, sent, q, rcvd, cfg, phase>>
+  LET d == E.dir  k == <<E.dir, cw[E.dir].conn>> IN
+  /\ wl' = [wl EXCEPT ![d] = FALSE]
+  /\ sent' = IF cw[d].rem > 0 /\ Len(Get(sent, k)) > 0
+              THEN Put(sent, k, [sent[k] EXCEPT ![Len(sent[k])].fn = sent[k][Len(sent[k])].fc])
+              ELSE sent
+  /\ l' = l + 1 /\ UNCHANGED <<bad, stats, cw, trunk, q, rcvd, wasfull, cfg, phase>>
 
 \* ------------------------------------------------------------ reader side --
 TRFrame ==
@@ -90,14 +112,16 @@ TRFrame ==
        THEN Reject("C10-framing", <<d, h, E.conn, E.f, E.size>>)
        ELSE /\ trunk' = [trunk EXCEPT ![d] = Tail(@)]
             /\ q' = IF E.open THEN Put(q, k, Append(Get(q, k), h)) ELSE q
+            \* the specification's queue is never shorter than the real one at this moment
+            /\ wasfull' = [wasfull EXCEPT ![d] = E.open /\ Len(Get(q, k)) >= cfg.qlen]
             /\ Next1("frames") /\ UNCHANGED <<wl, cw, sent, rcvd, cfg, phase>>
 
-\* an overflow is real only if the queue was full when the frame arrived
+\* an overflow is real only if the queue was full when the frame arrived (the consumer may have read since)
 TROvf ==
   LET k == <<E.dir, E.conn>> IN
-  IF Len(Get(q, k)) <= cfg.qlen THEN Reject("C11-spurious-overflow", <<k, Len(Get(q, k)), cfg.qlen>>)
+  IF ~wasfull[E.dir] \/ Len(Get(q, k)) = 0 THEN Reject("C11-spurious-overflow", <<k, Len(Get(q, k)), cfg.qlen>>)
   ELSE /\ q' = Put(q, k, SubSeq(q[k], 1, Len(q[k]) - 1))      \* that frame was not queued
-       /\ Next1("overflows") /\ UNCHANGED <<wl, cw, trunk, sent, rcvd, cfg, phase>>
+       /\ Next1("overflows") /\ UNCHANGED <<wl, cw, trunk, sent, rcvd, wasfull, cfg, phase>>
 
 TRErr ==
   IF ~Faulty /\ phase = "run" THEN Reject("C11-spurious-error", <<"trunk read", E.dir, E.class>>)
@@ -114,7 +138,7 @@ TRead ==
        IF h.f # E.f \/ h.size # E.size THEN Reject("C10-order", <<k, h, E.f, E.size>>)
        ELSE IF ~E.intact THEN Reject("C10-corrupt", <<k, E.f>>)
        ELSE /\ q' = Put(q, k, Tail(q[k])) /\ rcvd' = Put(rcvd, k, Append(Get(rcvd, k), h))
-            /\ Next1("reads") /\ UNCHANGED <<wl, cw, trunk, sent, cfg, phase>>
+            /\ Next1("reads") /\ UNCHANGED <<wl, cw, trunk, sent, wasfull, cfg, phase>>
 
 TWRet ==
   IF E.hung THEN Reject("C11-write-hung", <<E.end, E.conn>>)
@@ -128,7 +152,7 @@ Complete ==
 TQuiet ==
   IF ~Faulty /\ ~Complete
   THEN Reject("C10-incomplete", <<{k \in DOMAIN sent : Get(rcvd, k) # sent[k]}>>)
-  ELSE /\ phase' = "post" /\ l' = l + 1 /\ UNCHANGED <<bad, stats, wl, cw, trunk, sent, q, rcvd, cfg>>
+  ELSE /\ phase' = "post" /\ l' = l + 1 /\ UNCHANGED <<bad, stats, wl, cw, trunk, sent, q, rcvd, wasfull, cfg>>
 
 \* --------------------------------------------------------- after the close --
 TPostWrite ==
